@@ -102,9 +102,22 @@ func init() {
 
 	var items []Item
 	for _, f := range []string{"NewFirmwareVolume", "NewFile", "NewSection", "NewBIOSRegion", "NewFlashImage",
-		"FlashImage.fillRegionGaps", "FlashDescriptor.ParseFlashDescriptor", "FindFirmwareVolumeOffset", "FindSignature"} {
+		"FlashImage.fillRegionGaps", "FlashDescriptor.ParseFlashDescriptor", "FindFirmwareVolumeOffset", "FindSignature",
+		// follow-up wp-c04b: the ME partition table and the NVAR store are inside the theorem now
+		"NewMEFPT", "MEFPT.parsePartitions", "NewMERegion", "FindMEDescriptor", "NewNVarStore", "newNVar"} {
 		items = append(items, Item{Kind: "sliceshapes", Name: f}, Item{Kind: "cmpops", Name: f})
 	}
+	items = append(items,
+		Item{Kind: "const", Name: "MEPartitionDescriptorMinLength"}, Item{Kind: "const", Name: "MEPartitionTableEntryLength"},
+		Item{Kind: "bytesvar", Name: "MEFPTSignature"}, Item{Kind: "layout", Name: "MEPartitionEntry"},
+		Item{Kind: "callcount", Name: "NewFile", Arg: "NewNVarStore"},
+		Item{Kind: "callcount", Name: "NewMERegion", Arg: "NewMEFPT"},
+		Item{Kind: "callcount", Name: "NewMEFPT", Arg: "FindMEDescriptor"},
+		Item{Kind: "callcount", Name: "NewMEFPT", Arg: "parsePartitions"},
+		Item{Kind: "callcount", Name: "NewNVarStore", Arg: "newNVar"},
+		Item{Kind: "callcount", Name: "newNVar", Arg: "parseContent"},
+		Item{Kind: "callcount", Name: "NVar.parseContent", Arg: "NewNVarStore"},
+	)
 	items = append(items,
 		Item{Kind: "callcount", Name: "NewFirmwareVolume", Arg: "Align8"},
 		Item{Kind: "callcount", Name: "NewFile", Arg: "Align4"},
